@@ -114,6 +114,17 @@ def rule_formats(rep: Report, repo: Repo) -> None:
             a0 = c.args[0]
             ok = isinstance(a0, ast.Name) and a0.id in fmts
             how = f'constant {norm(a0)}'
+            if not ok and isinstance(a0, ast.Name):
+                # a format handed to a private read / write helper as a parameter: every call of the helper passes one of the constants
+                encl = c
+                while encl is not None and not isinstance(encl, (ast.FunctionDef, ast.AsyncFunctionDef)):
+                    encl = getattr(encl, '_parent', None)
+                if encl is not None and encl.name.startswith('_') and a0.id in [a.arg for a in encl.args.args]:
+                    idx = [a.arg for a in encl.args.args if a.arg != 'self'].index(a0.id)
+                    sites = [k for k in calls(repo.mod(rel)) if dotted(k.func).split('.')[-1] == encl.name]
+                    passed = [k.args[idx] if idx < len(k.args) else next((kw.value for kw in k.keywords if kw.arg == a0.id), None) for k in sites]
+                    ok = bool(sites) and all(isinstance(x, ast.Name) and x.id in fmts for x in passed)
+                    how = f'parameter {a0.id} of {encl.name}: every call passes {sorted({norm(x) for x in passed if x is not None})}'
             if not ok:
                 # the word format:  '<' + {8:'B',...}[w]   or  f'<{n}{word_format}'
                 txt = norm(a0)
@@ -144,7 +155,7 @@ def rule_fields(rep: Report, repo: Repo) -> None:
               'C06.FIELDS', 'writer:header', str(packs.get('_header_base_format')), f'{W}:{wf.lineno}')
     rep.check(packs.get('_header_extension_format') == ['self.flags', 'self.reserved'], 'C06.FIELDS', 'writer:extension',
               str(packs.get('_header_extension_format')), f'{W}:{wf.lineno}')
-    rh = inline_adjacent_temps(repo.func(R, 'Reader._init_header_fields'))
+    rh = inline_adjacent_temps(expand_private_calls(repo, R, repo.func(R, 'Reader._init_header_fields'), 'Reader'))        # an extracted `_read_struct` helper reads in place
     copies = attribute_copies(rh)            # a field unpacked into a local that is only copied to self.<field> reads as that attribute
     tg = {}
     for st in ast.walk(rh):
